@@ -67,24 +67,34 @@ Fixpoint run13_model (nt : net) (steps : list (nevent * nobs)) : bool :=
 
 (* ---------------- the properties on the observations ---------------- *)
 (* what the harness itself knows: who is alive, who is a server (from the events) *)
-Record pnode := { p_alive : bool; p_server : bool; p_joined : bool }.
+Record pnode := { p_alive : bool; p_server : bool; p_joined : bool; p_boots : list nat }.
+Definition pdead : pnode := {| p_alive := false; p_server := false; p_joined := false; p_boots := [] |}.
 Definition pstate := list pnode.
 
 Definition papply (ps : pstate) (e : nevent) : pstate :=
   match e with
   | EJoin s boots =>
       (* joined: the first node, or a node that had a live server to bootstrap from *)
-      let ok := match boots with [] => true | _ => existsb (fun b => p_alive (nth b ps {| p_alive := false; p_server := false; p_joined := false |})
-                                                                        && p_server (nth b ps {| p_alive := false; p_server := false; p_joined := false |})
-                                                                        && p_joined (nth b ps {| p_alive := false; p_server := false; p_joined := false |})) boots end in
-      ps ++ [{| p_alive := true; p_server := s; p_joined := ok |}]
-  | EDead => ps ++ [{| p_alive := false; p_server := false; p_joined := false |}]
-  | ECrash j => map (fun p => if Nat.eqb (fst p) j then {| p_alive := false; p_server := p_server (snd p); p_joined := p_joined (snd p) |} else snd p)
+      let ok := match boots with [] => true | _ => existsb (fun b => p_alive (nth b ps pdead)
+                                                                        && p_server (nth b ps pdead)
+                                                                        && p_joined (nth b ps pdead)) boots end in
+      ps ++ [{| p_alive := true; p_server := s; p_joined := ok; p_boots := boots |}]
+  | EDead => ps ++ [pdead]
+  | ECrash j => map (fun p => if Nat.eqb (fst p) j then {| p_alive := false; p_server := p_server (snd p); p_joined := p_joined (snd p); p_boots := p_boots (snd p) |} else snd p)
                     (combine (seq 0 (length ps)) ps)
+  | EStart d s boots =>
+      (* the newcomer counts as joined like any joiner; whoever was waiting for it (it is on their bootstrap list and
+         they had nobody live to bootstrap from) counts as joined from now on if it does *)
+      let okd := match boots with [] => true | _ => existsb (fun b => p_alive (nth b ps pdead) && p_server (nth b ps pdead) && p_joined (nth b ps pdead)) boots end in
+      map (fun p => if Nat.eqb (fst p) d then {| p_alive := true; p_server := s; p_joined := okd; p_boots := boots |}
+                    else if p_alive (snd p) && negb (p_joined (snd p)) && s && okd && existsb (Nat.eqb d) (p_boots (snd p))
+                         then {| p_alive := true; p_server := p_server (snd p); p_joined := true; p_boots := p_boots (snd p) |}
+                         else snd p)
+          (combine (seq 0 (length ps)) ps)
   | _ => ps
   end.
 
-Definition pget (ps : pstate) (i : nat) : pnode := nth i ps {| p_alive := false; p_server := false; p_joined := false |}.
+Definition pget (ps : pstate) (i : nat) : pnode := nth i ps pdead.
 Definition live_server (ps : pstate) (i : nat) : bool := p_alive (pget ps i) && p_server (pget ps i).
 
 Definition main_of (tabs : list (list nat * list nat)) (i : nat) : list nat := fst (nth i tabs ([], [])).
@@ -121,6 +131,12 @@ Definition c13_pb (ps : pstate) (e : nevent) (o : nobs) : bool :=
          if p_alive (pget ps j) && negb (match main_of tabs j with [] => true | _ => false end)
          then forallb (fun b => if live_server ps b && p_joined (pget ps b) && negb (Nat.eqb b j)
                                 then mem b (main_of tabs j) || mem b (b_stored o) else true) (all_nodes ps)
+         else true
+     | EStart d s boots =>
+         (* a server came up at an address that was dead: everybody alive who has it on the bootstrap list (and was left
+            with an empty table) has a non-empty table now - the retries reach it *)
+         if s then forallb (fun a => if p_alive (pget ps a) && existsb (Nat.eqb d) (p_boots (pget ps a)) && negb (Nat.eqb a d)
+                                     then negb (match main_of tabs a with [] => true | _ => false end) else true) (all_nodes ps)
          else true
      | EJoin _ boots =>
          (* the bootstrap lookup is a lookup as well: a joiner given a live server has queried every joined server *)
